@@ -3,7 +3,7 @@
     correspondence run ties to /repo; [spec_valid], [rule_ok] are the specification side (C05/Spec.v). *)
 From V Require Import Base.Util Gql.Ast C05.Model C05.Spec C05.SpecExamples C05.Witness
      C05.Proofs C05.Proofs2 C05.Proofs3 C05.Proofs4 C05.Proofs5 C05.Proofs6 C05.Proofs7 C05.Proofs8
-     C05.Proofs9 C05.Proofs10 C05.Proofs11.
+     C05.Proofs9 C05.Proofs10 C05.Proofs11 C05.Proofs12.
 
 (** no false alarm: a document valid under the specification gets no diagnostic *)
 Theorem C05_complete : forall doc, spec_valid doc = true -> check_doc doc = [].
@@ -94,6 +94,13 @@ Proof.
   apply is_subtype_none in E as [E|E]; congruence.
 Qed.
 Print Assumptions C05_is_subtype_covariant_correct.
+
+(** an accepted document has no `implements` cycle, of any length (spec 3.7: an interface may not implement itself,
+    and a type must declare every interface its interfaces implement) *)
+Theorem C05_no_implements_cycle : forall doc,
+  check_doc doc = [] -> unique_names doc = true -> implements_acyclic doc.
+Proof. exact no_implements_cycle. Qed.
+Print Assumptions C05_no_implements_cycle.
 
 (** two definitions of one kind with one name never get past resolve_schema_extensions *)
 Theorem C05_resolve_rejects_same_kind_dup : forall doc, same_kind_dup doc = true -> resolve_fails doc = true.
